@@ -134,6 +134,10 @@ func (p c04) Run(c *fw.Ctx, idx int) fw.Result {
 	op := gen.DefaultOpProfile(r)
 	op.MultiOps = idx%7 == 0
 	op.NoSingletonVars = idx%2 == 0
+	op.MultiFrag = idx%3 != 0
+	if idx%4 == 1 {
+		op.VarBias = 7
+	}
 	switch {
 	case schema.Subscription != "" && idx%12 == 0:
 		op.Kind = "subscription"
